@@ -335,7 +335,7 @@ class ProgGen:
     def e_list(self, d):
         r = self.r
         k = weighted(r, [('lit', 4), ('concat', 2), ('slice', 2), ('map', 3), ('filter', 2), ('sorted', 2), ('rev', 1),
-                         ('kvi', 1.5), ('split', 1), ('enum', 0.7), ('if', 1), ('mapstr', 0.7), ('mapdict', 0.7),
+                         ('kvi', 1.5), ('split', 1), ('enum', 0.7), ('if', 1), ('mapstr', 1.3), ('mapdict', 0.7),
                          ('sortedkey', 1), ('callfn', 0.7), ('listcall', 0.5)])
         if k == 'lit':
             et = r.choice(['num', 'num', 'str', 'mixed', 'list', 'dict'])
@@ -377,7 +377,9 @@ class ProgGen:
             self.kinds.add('if')
             return ['if', self.expr('list', d), self.expr('bool', d), self.expr('list', d)]
         if k == 'mapstr':
-            return self.call('map', [self.expr('str', d), self.lam(['str'], 'str', 1)])
+            # every character is an element of its own, also when it occurs more than once
+            subj = self.expr('str', d) if r.random() < 0.5 else ['str', r.choice(['aab', 'abab', 'zzz', '1.0 1.0', 'True', 'xx y xx'])]
+            return self.call('map', [subj, self.lam(['str'], 'str', 1)])
         if k == 'mapdict':
             return self.call('map', [self.expr('dict', d), self.lam(['str', 'any'], r.choice(['str', 'list']), 1)])
         if k == 'callfn':
@@ -391,7 +393,10 @@ class ProgGen:
         names = self.names_of('list')
         if names and r.random() < 0.3:
             return ['name', r.choice(names)]
-        return ['list', [self.expr('num', min(d, 1)) for _ in range(r.randint(0, 4))]]
+        items = [self.expr('num', min(d, 1)) for _ in range(r.randint(0, 4))]
+        if items and r.random() < 0.2:
+            items.append(items[r.randrange(len(items))])       # equal elements are separate elements
+        return ['list', items]
 
     def e_dict(self, d):
         r = self.r
